@@ -120,6 +120,13 @@ def ground_predicate(
         for param, param_type in domain.predicates[predicate_name].signature.items()
     }
     predicate_params = list(predicate.signature.keys())
+    if len(predicate_params) != len(predicate_signature):
+        # Grounding by position would silently truncate the literal or pad it with the domain's constants.
+        raise ValueError(
+            f"The literal {str(predicate)} does not match the arity of the declared predicate "
+            f"{str(domain.predicates[predicate_name])}!"
+        )
+
     if len(domain.constants) > 0:
         predicate_params.extend(list(domain.constants.keys()))
 
